@@ -254,7 +254,9 @@ def pass1 : List Str → List Field × List (Str × List Str) →
     Except Err (List Field × List (Str × List Str))
   | [], acc => .ok acc
   | h :: hs, (fields, cx) =>
-    match splitFirst sepField h with
+    -- nesting is decided on the field NAME (`get_field_name(header)`), so a dot inside a
+    -- default value does not split the header
+    match (if (getFieldName h).contains sepField then splitFirst sepField h else none) with
     | some (field, sub) => pass1 hs (fields, dictAppendTo cx field sub)
     | none =>
       match parseHeaderAnnotations h with
